@@ -19,7 +19,7 @@ struct File {
 }
 
 pub fn load() -> Vec<Finding> {
-    let path = format!("{}/known_findings.json", crate::report::VERIF_DIR);
+    let path = format!("{}/known_findings.json", crate::report::verif_dir());
     match std::fs::read_to_string(&path) {
         Ok(s) => match serde_json::from_str::<File>(&s) {
             Ok(f) => f.findings,
